@@ -632,4 +632,95 @@ Proof.
     + apply (IH _ _ _ _ _ _ (KS_ev _ _ _ (KS_ev _ _ _ A)) E).
     + injection E as <- <- <-. apply KS_ev, KS_ev, A.
 Qed.
+
+(* Request::record_boundary: a read inside the skip loop happens strictly inside a record *)
+Lemma boundary_loop_K : forall fuel new r w e r' w',
+  pinv (rsp r) -> bytes_ok new -> len new <= sinput_space (rsp r) -> bytes_ok (remaining w) ->
+  Kc (abs (rsp r)) new (segs w) ->
+  boundary_loop maxc fuel new r w = Ok (e, r') w' -> KS r' w'.
+Proof.
+  induction fuel as [|f IH]; intros new r w e r' w' Hinv Hnew Hfit Hrem HK E; [discriminate E|].
+  rewrite ConnWrites.boundary_loop_S in E.
+  pose proof (sparse_step maxc (rsp r) new None Hinv Hnew Hfit ltac:(intros H; contradiction)) as SS.
+  pose proof (Kc_sparse (rsp r) new None (segs w) Hinv HK) as SK.
+  assert (AFTER : forall p1 s, sparse_ok maxc (rsp r) new None p1 s -> Kc (abs p1) [] (segs w) ->
+            (stuck (abs p1) \/ is_record_boundary p1 = true) ->
+            ConnWrites.bl_after maxc f r w p1 = Ok (e, r') w' -> KS r' w').
+  { intros p1 s SO K1 Hstop Ea. pose proof (so_inv _ _ _ _ _ _ SO) as [RI1 A1].
+    unfold ConnWrites.bl_after in Ea. cbv zeta in Ea. destruct (is_record_boundary p1) eqn:Eb.
+    { injection Ea as <- <- <-. split; [split; assumption|]. split; [exact Hrem|exact K1]. }
+    destruct Hstop as [ST|Hc]; [|discriminate Hc].
+    destruct (compress_views p1 RI1) as (V1 & V2 & V3 & V4 & V5 & V6).
+    pose proof (compress_abs p1 RI1) as CA.
+    assert (I2 : pinv (compress p1)) by (split; [exact V1|rewrite CA; apply compress_inv; exact A1]).
+    assert (K2 : Kc (abs (compress p1)) [] (segs w)) by (rewrite CA; exact K1).
+    assert (HV : forall vm, SREL (abs (compress p1)) vm -> VA vm (abs (compress p1)) [] = false).
+    { rewrite CA. intros vm _. apply (stuck_V (abs p1) vm ST Eb). }
+    pose proof (await_read_rem (io_fuel w 0) false (sinput_space (compress p1)) w) as RM.
+    destruct (await_read (io_fuel w 0) false (sinput_space (compress p1)) w) as [[b|k] w1|o w1] eqn:ER; [| |discriminate Ea].
+    - pose proof (Kc_rd _ _ _ _ (await_read_rd _ _ _ _ _ _ ER) K2 HV) as K3. cbv beta iota in K3.
+      destruct RM as (R1 & R2 & R3 & R4 & _). rewrite R3 in Hrem. apply bytes_ok_app in Hrem. destruct b as [|x b].
+      + injection Ea as <- <- <-. split; [exact I2|]. split; [apply Hrem|exact K3].
+      + apply (IH (x :: b) (mkR (compress p1) (rwriteable r) (rlock r) (raborted r)) w1 e r' w' I2 (proj1 Hrem) R4 (proj2 Hrem) K3 Ea).
+    - pose proof (Kc_rd _ _ _ _ (await_read_rd _ _ _ _ _ _ ER) K2 HV) as K3. cbv beta iota in K3.
+      destruct RM as (R1 & R2 & R3 & _). injection Ea as <- <- <-. split; [exact I2|]. split; [rewrite R3; exact Hrem|exact K3]. }
+  destruct (sparse maxc (rsp r) new None) as [p1 s|p1 pe s|n] eqn:ESP; [| |discriminate E].
+  - apply (AFTER p1 s); [apply SS|exact SK|apply (sparse_none_stop maxc (rsp r) new p1 s Hinv ESP)|exact E].
+  - destruct SS as (SO & He & _).
+    destruct pe; try (injection E as <- <- <-; split; [apply (so_inv _ _ _ _ _ _ SO)|split; [exact Hrem|exact SK]]).
+    apply (AFTER p1 s SO SK); [right; apply (err_at_boundary _ _ He)|exact E].
+Qed.
+
+Lemma record_boundary_KS r w e r' w' : KS r w -> record_boundary maxc r w = Ok (e, r') w' -> KS r' w'.
+Proof.
+  intros H E. unfold record_boundary in E. destruct (is_record_boundary (rsp r)); [injection E as <- <- <-; exact H|].
+  destruct H as (H1 & H2 & H3).
+  apply (boundary_loop_K _ [] r w e r' w' H1 ltac:(constructor) ltac:(rewrite len_nil; lia) H2 H3 E).
+Qed.
+
+(* Request::close hands back a parser whose leftover, together with the rest of the segment, is whole records of the
+   stream section of the request just closed; the segments not yet opened are untouched *)
+Definition closed_ok (rp : parser) (w : world) : Prop :=
+  bytes_ok (remaining w) /\
+  exists tl cur, sfx tl srs /\ segs w = cur ++ LS /\ held rp ++ flat cur = enc_rcds tl /\ rp = mkParser CAP (held rp) Header.
+
+Lemma close_tail_K r1 disc code w1 rp w' : KS r1 w1 -> close_tail maxc r1 disc code w1 = Ok (inl rp) w' -> closed_ok rp w'.
+Proof.
+  intros H E. rewrite close_tail_unfold in E.
+  destruct (set_stream (rsp r1) None) as [p2| |] eqn:Es; [|discriminate E|discriminate E].
+  pose proof (set_stream_KS r1 w1 None p2 (rwriteable r1) (rlock r1) (raborted r1) H Es) as H2.
+  destruct (record_boundary maxc (mkR p2 (rwriteable r1) (rlock r1) (raborted r1)) w1) as [[[k2|] r3] w2|o w2] eqn:ERB;
+    [discriminate E| |discriminate E].
+  destruct (record_boundary_KS _ _ _ _ _ H2 ERB) as ([RI3 A3] & R2 & K3).
+  destruct (record_boundary_spec maxc _ _ _ _ _ ERB) as (_ & _ & _ & _ & Eb).
+  pose proof (close_finish_spec r3 disc code w2) as CF.
+  destruct (epilogue (r_id (sreq (rsp r3))) disc code (if rwriteable r3 then ROLE_OUTPUT_STREAMS else [])) as [ep|] eqn:Eep;
+    [|rewrite CF in E; discriminate E].
+  rewrite E in CF. unfold cf_post in CF. cbv zeta in CF. destruct CF as ((Hsame & _) & Hconv & _).
+  assert (Hsegs : segs w' = segs w2) by apply Hsame.
+  destruct (close_p4_spec r3) as (Hsp & Ho4 & _). destruct (sp_same_views _ _ Hsp) as (_ & V2 & _ & V4 & _).
+  assert (RI4 : RI (close_p4 r3)).
+  { unfold close_p4. destruct (output_buffer (rsp r3)); [exact RI3|apply consume_output_RI; exact RI3]. }
+  pose proof (into_request_parser_refines (close_p4 r3) RI4) as IR. rewrite Hconv in IR. cbn [absconv] in IR.
+  unfold ainto_request_parser in IR. change (a_boundary (abs (close_p4 r3))) with (is_record_boundary (close_p4 r3)) in IR.
+  rewrite V4, Eb in IR. cbn [negb] in IR.
+  destruct (negb (len (a_out (abs (close_p4 r3))) =? 0)); [discriminate IR|]. injection IR as <-. cbn [held].
+  split; [rewrite (same_but_io_remaining _ _ Hsame); exact R2|].
+  destruct K3 as (HB & vm & tl & cur & HS & Hs & Hsg & HC & HV).
+  exists tl, cur. split; [exact Hs|]. split; [rewrite Hsegs; exact Hsg|].
+  change (a_raw (abs (close_p4 r3))) with (raw_bytes (close_p4 r3)). rewrite V2. split.
+  - unfold is_record_boundary in Eb. apply andb_true_iff in Eb. destruct Eb as [Ep Eq]. apply N.eqb_eq in Ep. apply N.eqb_eq in Eq.
+    destruct HC as (x & Ex & Hx). cbn [abs a_prem a_pad a_raw] in Ex, Hx. rewrite Ep, Eq in Hx.
+    assert (x = []) by (apply len_zero_nil; lia). subst x. cbn [app] in Ex. exact Ex.
+  - f_equal. cbn [abs a_B] in HB |- *. destruct Hsp as (Hbuf & _). rewrite Hbuf. exact HB.
+Qed.
+
+Lemma do_close_K r disc code w rp w' : KS r w -> do_close maxc r disc code w = Ok (inl rp) w' -> closed_ok rp w'.
+Proof.
+  intros H E. unfold do_close in E.
+  destruct (do_writeable maxc r w) as [[[k|] r1] w1|o w1] eqn:ED; [| |discriminate E];
+    pose proof (do_writeable_KS _ _ _ _ _ H ED) as H1.
+  - destruct ((k =? EK_Aborted) && raborted r1); [apply (close_tail_K _ _ _ _ _ _ H1 E)|discriminate E].
+  - apply (close_tail_K _ _ _ _ _ _ H1 E).
+Qed.
 End Layers4.
